@@ -447,6 +447,13 @@ Proof.
     apply (drop_from_removes s (g_operands c s) 0 c i w (proj2 Hkn) Hc). exact Hin.
 Qed.
 
+Lemma operands_fold_set_dead l : forall c o,
+  g_operands (fold_left (fun c s => upd_op c s set_dead) l c) o = g_operands c o.
+Proof.
+  induction l as [|s l IH]; simpl; intros c o; auto.
+  rewrite IH. apply operands_upd_op_pres. intros r; reflexivity.
+Qed.
+
 Lemma uinv_erase o1 c : UInv c -> UInv (cp_erase o1 c).
 Proof.
   intros [U K N]. unfold cp_erase. set (subs := g_subops c o1).
@@ -462,9 +469,7 @@ Proof.
   set (c2 := fold_left drop_operand_uses subs c1) in *.
   set (c3 := fold_left (fun c s => upd_op c s set_dead) subs c2).
   assert (Hv3 : c_vals c3 = c_vals c2) by (apply vals_fold; intros; apply vals_upd_op).
-  assert (Ho3 : forall o, g_operands c3 o = g_operands c2 o).
-  { unfold c3. generalize c2. induction subs as [|s l IHl]; simpl; intros c0; auto.
-    intros o. rewrite IHl. Show. apply operands_upd_op_pres. intros r; reflexivity. }
+  assert (Ho3 : forall o, g_operands c3 o = g_operands c2 o) by (intros o; apply operands_fold_set_dead).
   assert (Huses : forall w x, In x (g_uses c3 w) -> In x (g_uses c w) /\ ~ In (fst x) subs).
   { intros w x Hx. unfold g_uses in Hx. rewrite Hv3 in Hx. fold (g_uses c2 w) in Hx. split.
     - apply (proj1 (A w)) in Hx. unfold g_uses in *. rewrite Hv1 in Hx. exact Hx.
@@ -476,4 +481,224 @@ Proof.
     rewrite Ho3. rewrite (operands_ops_eq c1 c2 B), (operands_ops_eq c c1 Ho1). apply K. exact Hold.
   - intros w. unfold g_uses. rewrite Hv3. fold (g_uses c2 w). apply (proj2 (A w)).
     unfold g_uses. rewrite Hv1. apply N.
+Qed.
+
+(* ---------- insert: creating operations with identifiers no use list mentions yet ---------- *)
+Definition unmentioned (c : cir) (id : op) : Prop := forall v u, In u (g_uses c v) -> fst u <> id.
+(* UF c ids: the invariant holds and the identifiers still to be created are unmentioned *)
+Definition UF (c : cir) (ids : list op) : Prop := UInv c /\ forall id, In id ids -> unmentioned c id.
+
+Lemma uf_neutral c c' ids :
+  (forall o, g_operands c' o = g_operands c o) -> nokill c c' -> uses_shrink c c' -> UF c ids -> UF c' ids.
+Proof.
+  intros Ho Hk Hs [Hi Hf]. split; [eapply uinv_shrink; eauto|].
+  intros id Hid v u Hu. apply (Hf id Hid v). apply (Hs v). exact Hu.
+Qed.
+
+Lemma uses_add_uses_from vs : forall c id k w u,
+  In u (g_uses (add_uses_from c id k vs) w) ->
+  In u (g_uses c w) \/ exists j, u = (id, k + j) /\ nth_error vs j = Some w.
+Proof.
+  induction vs as [|v r IH]; simpl; intros c id k w u H; auto.
+  apply IH in H. destruct H as [H|(j & -> & Hj)].
+  - apply uses_add_use_in in H. destruct H as [[-> ->]|H]; auto.
+    right. exists 0. rewrite Nat.add_0_r. auto.
+  - right. exists (S j). split; [f_equal; lia | exact Hj].
+Qed.
+
+Lemma nodup_add_uses_from vs : forall c id k,
+  (forall w, NoDup (g_uses c w)) -> (forall w u, In u (g_uses c w) -> fst u = id -> snd u < k) ->
+  forall w, NoDup (g_uses (add_uses_from c id k vs) w).
+Proof.
+  induction vs as [|v r IH]; simpl; intros c id k Hn Hlt; auto.
+  apply IH.
+  - intros w. apply uses_add_use_nodup; auto. intros -> Hin. apply Hlt in Hin; simpl in *; auto. lia.
+  - intros w u Hu Hfu. apply uses_add_use_in in Hu. destruct Hu as [[_ ->]|Hu]; simpl; [lia|].
+    specialize (Hlt w u Hu Hfu). lia.
+Qed.
+
+Lemma operands_mk_op c id pure st opers restys o :
+  g_operands (mk_op c id pure st opers restys) o = if Nat.eqb o id then map OVal opers else g_operands c o.
+Proof.
+  rewrite !operands_info, info_mk_op. destruct (Nat.eqb o id); reflexivity.
+Qed.
+
+Lemma uses_mk_op c id pure st opers restys w u :
+  In u (g_uses (mk_op c id pure st opers restys) w) -> In u (g_uses (add_uses_from c id 0 opers) w).
+Proof.
+  unfold mk_op. pose proof (uses_alloc_vals restys (add_uses_from c id 0 opers) (VOOp id)) as H.
+  destruct (alloc_vals (add_uses_from c id 0 opers) (VOOp id) restys) as [c2 rs]. simpl in H.
+  intros Hu. apply (proj1 (H w)). exact Hu.
+Qed.
+Lemma nodup_mk_op c id pure st opers restys w :
+  NoDup (g_uses (add_uses_from c id 0 opers) w) -> NoDup (g_uses (mk_op c id pure st opers restys) w).
+Proof.
+  unfold mk_op. pose proof (uses_alloc_vals restys (add_uses_from c id 0 opers) (VOOp id)) as H.
+  destruct (alloc_vals (add_uses_from c id 0 opers) (VOOp id) restys) as [c2 rs]. simpl in H.
+  intros Hn. apply (proj2 (H w)). exact Hn.
+Qed.
+
+Lemma uf_mk_op c id pure st opers restys rest :
+  ~ In id rest -> UF c (id :: rest) -> UF (mk_op c id pure st opers restys) rest.
+Proof.
+  intros Hnin [[U K N] Hf].
+  assert (Hid : unmentioned c id) by (apply Hf; left; reflexivity).
+  assert (Huses : forall w u, In u (g_uses (mk_op c id pure st opers restys) w) ->
+                  In u (g_uses c w) \/ exists j, u = (id, j) /\ nth_error opers j = Some w).
+  { intros w u Hu. apply uses_mk_op, uses_add_uses_from in Hu. exact Hu. }
+  split; [split|].
+  - intros w u Hu. destruct (Huses w u Hu) as [H|(j & -> & _)].
+    + apply nokill_mk_op. apply (U w). exact H.
+    + apply alive_mk_op.
+  - intros w s i Hu. rewrite operands_mk_op. destruct (Huses w (s, i) Hu) as [H|(j & E & Hj)].
+    + destruct (Nat.eqb s id) eqn:Es; [|apply K; exact H].
+      apply Nat.eqb_eq in Es. subst. exfalso. exact (Hid w (id, i) H eq_refl).
+    + inversion E; subst. rewrite Nat.eqb_refl. rewrite nth_error_map, Hj. reflexivity.
+  - intros w. apply nodup_mk_op. apply nodup_add_uses_from; auto.
+    intros w' u Hu Hfu. exfalso. exact (Hid w' u Hu Hfu).
+  - intros id' Hid' w u Hu. destruct (Huses w u Hu) as [H|(j & -> & _)].
+    + apply (Hf id' (or_intror Hid') w). exact H.
+    + simpl. intros ->. contradiction.
+Qed.
+
+Lemma uf_upd_blk c b f ids : UF c ids -> UF (upd_blk c b f) ids.
+Proof.
+  apply uf_neutral; [apply operands_ops_eq, ops_upd_blk | apply nokill_ops_eq, ops_upd_blk |
+                     apply uses_vals_eq, vals_upd_blk].
+Qed.
+Lemma uf_upd_reg c g f ids : UF c ids -> UF (upd_reg c g f) ids.
+Proof.
+  apply uf_neutral; [apply operands_ops_eq, ops_upd_reg | apply nokill_ops_eq, ops_upd_reg |
+                     apply uses_vals_eq, vals_upd_reg].
+Qed.
+Lemma uf_upd_op_pres c k f ids :
+  (forall r, o_operands (f r) = o_operands r) -> (forall r, o_dead (f r) = o_dead r) -> UF c ids -> UF (upd_op c k f) ids.
+Proof.
+  intros H1 H2. apply uf_neutral; [apply operands_upd_op_pres; auto | apply nokill_upd_op; auto |
+                                   apply uses_vals_eq, vals_upd_op].
+Qed.
+Lemma uf_fold {A} ids (step : cir -> A -> cir) (l : list A) :
+  (forall c x, UF c ids -> UF (step c x) ids) -> forall c, UF c ids -> UF (fold_left step l c) ids.
+Proof. induction l as [|x l IH]; simpl; intros H c Hc; auto. Qed.
+
+Lemma uf_create_leaf c b l rest :
+  ~ In (lf_id l) rest -> UF c (lf_id l :: rest) -> UF (create_leaf c b l) rest.
+Proof.
+  intros Hn H. unfold create_leaf, append_op.
+  apply uf_upd_op_pres; auto. apply uf_upd_blk. apply uf_mk_op; auto.
+Qed.
+
+Lemma uf_leaves b body : forall c rest,
+  NoDup (map lf_id body ++ rest) -> UF c (map lf_id body ++ rest) ->
+  UF (fold_left (fun c l => create_leaf c b l) body c) rest.
+Proof.
+  induction body as [|l body IH]; simpl; intros c rest Hn H; auto.
+  inversion Hn; subst. apply IH; auto. apply uf_create_leaf; auto.
+Qed.
+
+Lemma nodup_app_r {A} (a b : list A) : NoDup (a ++ b) -> NoDup b.
+Proof. induction a as [|x a IH]; simpl; auto. intros H. inversion H; auto. Qed.
+
+Definition blk_ids (nb : newblk) : list op := map lf_id (nb_body nb).
+Lemma uf_create_blk c g nb rest :
+  NoDup (blk_ids nb ++ rest) -> UF c (blk_ids nb ++ rest) -> UF (create_blk c g nb) rest.
+Proof.
+  intros Hn H. unfold create_blk, append_block.
+  apply uf_upd_blk, uf_upd_reg. apply uf_leaves; auto.
+  revert H. apply uf_neutral; [apply operands_ops_eq, ops_mk_block | apply nokill_ops_eq, ops_mk_block |
+                               apply uses_mk_block].
+Qed.
+Lemma uf_blks g bs : forall c rest,
+  NoDup (flat_map blk_ids bs ++ rest) -> UF c (flat_map blk_ids bs ++ rest) ->
+  UF (fold_left (fun c nb => create_blk c g nb) bs c) rest.
+Proof.
+  induction bs as [|nb bs IH]; simpl; intros c rest Hn H; auto.
+  rewrite <- app_assoc in Hn, H. apply IH.
+  - apply nodup_app_r in Hn. exact Hn.
+  - apply uf_create_blk; auto.
+Qed.
+
+Definition reg_ids (nr : newreg) : list op :=
+  match nr with NRFresh bs => flat_map blk_ids bs | NRLimbo _ => [] end.
+(* creation order: the ops of the new regions first, the op itself last *)
+Definition create_ids (n : newop) : list op := flat_map reg_ids (no_regions n) ++ [no_id n].
+
+Lemma uf_create_new limbo0 c n rest :
+  NoDup (create_ids n ++ rest) -> UF c (create_ids n ++ rest) -> UF (create_new limbo0 c n) rest.
+Proof.
+  unfold create_new, create_ids.
+  set (step := fun (acc : cir * list nat) (nr : newreg) =>
+                 let '(c, gs) := acc in
+                 match nr with
+                 | NRFresh bs => let '(c1, g) := mk_region c None in
+                                 (fold_left (fun c nb => create_blk c g nb) bs c1, gs ++ [g])
+                 | NRLimbo k => (c, gs ++ [nth k limbo0 0])
+                 end).
+  assert (G : forall rs acc rest', NoDup (flat_map reg_ids rs ++ rest') ->
+                UF (fst acc) (flat_map reg_ids rs ++ rest') -> UF (fst (fold_left step rs acc)) rest').
+  { induction rs as [|nr rs IH]; simpl; intros acc rest' Hn H; auto.
+    rewrite <- app_assoc in Hn, H. apply IH; [apply nodup_app_r in Hn; exact Hn|].
+    destruct acc as [c0 gs]. simpl in *. destruct nr as [bs|k]; simpl in *; auto.
+    apply uf_blks; auto. revert H. apply uf_neutral; auto using nokill_refl.
+    - apply nokill_ops_eq. reflexivity.
+    - apply uses_vals_eq. reflexivity. }
+  intros Hn H. rewrite <- app_assoc in Hn, H. simpl in Hn, H.
+  specialize (G (no_regions n) (c, []) (no_id n :: rest) Hn H).
+  destruct (fold_left step (no_regions n) (c, [])) as [c1 gs]. simpl in G.
+  unfold attach_regions. apply uf_fold; [intros; apply uf_upd_reg; auto|].
+  apply uf_upd_op_pres; auto. apply uf_mk_op; auto.
+  apply nodup_app_r in Hn. inversion Hn; auto.
+Qed.
+
+(* precondition of insert as far as use lists are concerned: the identifiers of the operations to be
+   created are pairwise distinct and no use list mentions them (they are new) *)
+Definition cir_ins_ok (c : cir) (news : list newop) : Prop :=
+  NoDup (flat_map create_ids news) /\ forall id, In id (flat_map create_ids news) -> unmentioned c id.
+
+Lemma uinv_insert news ip c : cir_ins_ok c news -> UInv c -> UInv (cp_insert news ip c).
+Proof.
+  intros [Hn Hf] Hi. unfold cp_insert. destruct (ip_target c ip) as [tgt|]; auto.
+  set (limbo0 := c_limbo c).
+  assert (G : forall l c0 rest, NoDup (flat_map create_ids l ++ rest) ->
+                UF c0 (flat_map create_ids l ++ rest) -> UF (fold_left (create_new limbo0) l c0) rest).
+  { induction l as [|n l IH]; simpl; intros c0 rest Hn0 H0; auto.
+    rewrite <- app_assoc in Hn0, H0. apply IH; [apply nodup_app_r in Hn0; exact Hn0|].
+    apply uf_create_new; auto. }
+  assert (H0 : UF (fold_left (create_new limbo0) news c) []).
+  { apply G; rewrite app_nil_r; [exact Hn | split; assumption]. }
+  apply uinv_place_ops. destruct H0 as [H0 _]. revert H0.
+  apply uinv_neutral; auto using nokill_refl. apply nokill_ops_eq. reflexivity.
+Qed.
+
+(* ---------- the users half of InvLaws, for all thirteen primitives ---------- *)
+Lemma uinv_prim okp erase_ok p c :
+  UInv c -> prim_side cir_sem cir_ins_ok okp erase_ok p c -> UInv (run_prim cir_sem p c).
+Proof.
+  intros Hi [_ Hs]. destruct p; simpl in *.
+  - apply uinv_insert; assumption.
+  - apply uinv_erase; assumption.
+  - apply uinv_rauw; assumption.
+  - apply uinv_erase_value; assumption.
+  - apply uinv_rauw_if; assumption.
+  - apply uinv_retype; assumption.
+  - apply uinv_insert_arg; assumption.
+  - apply uinv_erase_arg; assumption.
+  - apply uinv_inline_block; assumption.
+  - apply uinv_move_region; assumption.
+  - apply uinv_inline_region; assumption.
+  - apply uinv_create_block; assumption.
+  - apply uinv_bump; assumption.
+Qed.
+
+(* InvLaws for the heap model, given any invariant `wfW` that takes care of the tree half
+   (the region walk yields only live ops) for the primitives allowed by `okp` *)
+Theorem cir_inv_laws okp erase_ok (wfW : cir -> Prop) :
+  (forall p c, wfW c -> prim_side cir_sem cir_ins_ok okp erase_ok p c -> wfW (run_prim cir_sem p c)) ->
+  (forall c rev rf o, wfW c -> In o (g_walk rev rf c) -> In o (g_alive c)) ->
+  InvLaws cir_sem (fun c => UInv c /\ wfW c) cir_ins_ok okp erase_ok.
+Proof.
+  intros Hp Hw. split.
+  - intros p c [Hi Hc] Hs. split; [eapply uinv_prim; eassumption | apply Hp; assumption].
+  - intros c v u [Hi _] Hu. apply (ui_U c Hi v). exact Hu.
+  - intros c rev rf o [_ Hc] Ho. apply (Hw c rev rf o Hc Ho).
 Qed.
